@@ -386,8 +386,8 @@ func (x *Exec) callByContract(st *State, fr *Frame, call *ssa.Call, callee *ssa.
 		if sig.At(i).Name() != "" {
 			post.vars[sig.At(i).Name()] = sv
 		}
-		if sig.Len() == 1 {
-			post.vars["result"] = sv
+		if _, isParam := penv["result"]; sig.Len() == 1 && !isParam {
+			post.vars["result"] = sv // (a parameter called result keeps its name; the return value is result0)
 		}
 	}
 	if sig.Len() == 1 {
